@@ -717,3 +717,101 @@ def kind_weights():
         else:
             w[k] = 1
     return w
+
+
+# ---------------------------------------------------------------------------
+# near-repeats: the same call with ONE argument changed to a close relative.
+# A memo keyed on a projection of the arguments (rounded value, datum labels,
+# flattening only, identity of a notation class ...) returns the earlier call's
+# answer for the relative; the pristine reference does not.
+# ---------------------------------------------------------------------------
+
+ELL_VALUES = {'grs80': (6378137, 298.257222101), 'wgs84': (6378137, 298.257223563),
+              'ans': (6378160, 298.25), 'intl24': (6378388, 297)}
+
+
+def _perturb(rng, v):
+    if isinstance(v, bool) or not isinstance(v, (int, float)):
+        return None
+    if isinstance(v, int):
+        return None
+    d = rng.choice([1e-9, -1e-9, 1e-7, 1e-5, -1e-3])
+    return v + d * max(1.0, abs(v)) if rng.random() < 0.5 else v + d
+
+
+def near_variant(rng, lit, ctx):
+    """-> a literal close to `lit` (or None when no relative is defined)"""
+    if isinstance(lit, float):
+        return _perturb(rng, lit)
+    if isinstance(lit, list):
+        idx = [i for i, x in enumerate(lit) if isinstance(x, float)]
+        if not idx:
+            return None
+        out = list(lit)
+        i = rng.choice(idx)
+        out[i] = _perturb(rng, out[i])
+        return out
+    if not isinstance(lit, dict):
+        return None
+    if '$const' in lit:
+        n = lit['$const']
+        if n in ELL_VALUES:
+            a, f = ELL_VALUES[n]
+            k = rng.randrange(4)
+            if k == 0:
+                return {'$const': rng.choice([e for e in ELLIPSOIDS if e != n])}
+            if k == 1:
+                return {'$ell': [a, rng.choice([297.0, 298.25, 299.1528128, f + 1e-6])]}       # same axis, other flattening
+            if k == 2:
+                return {'$ell': [rng.choice([a / 0.3048, a + 0.5, 6377276.345, 6378249.145]), f]}  # same flattening, other axis
+            return {'$ell': [a, f]}                                                              # equal values, other object
+        if n in ('utm', 'isg'):
+            return {'$proj': [500000, 10000000, rng.choice([0.9996, 0.9999, 1.0]), 6, -177]}
+        grp = ctx.label_groups.get(n)
+        if grp and rng.random() < 0.8:
+            return {'$const': rng.choice(grp)}
+        return {'$const': rng.choice(ctx.catalogue)}
+    if '$ell' in lit:
+        a, f = lit['$ell']
+        return {'$ell': [a + 0.5, f]} if rng.random() < 0.5 else {'$ell': [a, f + 1e-3]}
+    if '$trans' in lit:
+        d = dict(lit['$trans'])
+        k = rng.choice(['tx', 'sc', 'rz', 'd_tx'])
+        d[k] = round(d.get(k, 0.0) + rng.choice([0.01, -0.002, 0.3]), 6)
+        return {'$trans': d}
+    if '$array' in lit:
+        arr = [row[:] if isinstance(row, list) else row for row in lit['$array']]
+        if arr and isinstance(arr[0], list):
+            i, j = rng.randrange(len(arr)), rng.randrange(len(arr[0]))
+            arr[i][j] = arr[i][j] * (1 + 1e-6) + 1e-12
+            if len(arr) == len(arr[0]):
+                arr[j][i] = arr[i][j]
+        elif arr:
+            i = rng.randrange(len(arr))
+            arr[i] = arr[i] + 1e-7
+        out = dict(lit)
+        out['$array'] = arr
+        return out
+    if '$date' in lit:
+        import datetime as _d
+        return {'$date': (_d.date.fromisoformat(lit['$date']) + _d.timedelta(days=rng.choice([1, -1, 365]))).isoformat()}
+    if '$angle' in lit:
+        a = list(lit['$angle'])
+        if a[0] in ('DEC', 'GON') and isinstance(a[1], float):
+            a[1] = a[1] + rng.choice([1e-9, 1e-6])
+            return {'$angle': a}
+        if a[0] in ('DMS', 'DDM') and isinstance(a[-1], float):
+            a[-1] = round(abs(a[-1]) * (1 - 1e-6), 9) if a[-1] >= 0 else a[-1]
+            return {'$angle': a}
+        return None
+    if '$coord' in lit:
+        c = list(lit['$coord'])
+        idx = [i for i in range(1, len(c)) if isinstance(c[i], float)]
+        if not idx:
+            return None
+        i = rng.choice(idx)
+        c[i] = _perturb(rng, c[i])
+        return {'$coord': c}
+    if '$cls' in lit:
+        return {'$cls': rng.choice([x for x in ['float', 'DECAngle', 'HPAngle', 'GONAngle', 'DMSAngle', 'DDMAngle'] if x != lit['$cls']])}
+    return None
